@@ -21,7 +21,7 @@ for key, c in REGISTRY.contracts.items():
     for ob in rep.obligations:
         r = ob.result
         flag = "" if r["status"]=="discharged" else "   <<<<<<"
-        print(f"   {r['status']:10s} {r['backend']:4s} {r['seconds']:7.2f}s  {ob.label}{flag}")
+        print(f"   {r['status']:10s} {r["backend"]:18s} {r['seconds']:7.2f}s  {ob.label}{flag}")
         if r["status"]=="failed" and r["model"]:
             print("      model:", {k:v for k,v in list(r["model"].items())[:25]})
         if r["status"]=="undecided": print("      reason:", r["reason"])
